@@ -37,15 +37,15 @@ type Failure struct {
 
 // Result is the verdict for one program.
 type Result struct {
-	Name        string    `json:"name"`
-	Target      string    `json:"target"`
-	GenFail     string    `json:"gen_fail,omitempty"`
-	NonDet      bool      `json:"nondeterministic,omitempty"`
-	CompileFail string    `json:"compile_fail,omitempty"`
-	Ran         bool      `json:"ran"`
-	Crash       string    `json:"crash,omitempty"` // runner died / hung while on this target
-	Evals       int       `json:"evals"`
-	Failures    []Failure `json:"failures,omitempty"`
+	Name        string          `json:"name"`
+	Target      string          `json:"target"`
+	GenFail     string          `json:"gen_fail,omitempty"`
+	NonDet      bool            `json:"nondeterministic,omitempty"`
+	CompileFail string          `json:"compile_fail,omitempty"`
+	Ran         bool            `json:"ran"`
+	Crash       string          `json:"crash,omitempty"` // runner died / hung while on this target
+	Evals       int             `json:"evals"`
+	Failures    []Failure       `json:"failures,omitempty"`
 	Extra       json.RawMessage `json:"extra,omitempty"`
 }
 
